@@ -480,3 +480,32 @@ def c13(ctx):
     ctx.assumptions += ["bounded waits: a new session must appear within 6 s of the server accepting connections again (back-off delays are tens of ms); 'no further attempt' is observed for 0.5 s",
                         "TLS-policy permanent errors are covered by the negotiation model (C04); here the permanent error is rejected credentials"]
 FAMILY_TRACE["life"] = ("TraceLifecycle", "Trace_Lifecycle.cfg")
+
+
+# ------------------------------------------------------------------ C18
+@check("C18")
+def c18(ctx):
+    q = ctx.tier == "quick"
+    def full():
+        cfgtext = """SPECIFICATION Spec
+CONSTANTS
+  MaxTicks = %d
+  FailAts = %s
+  QuitPhases = {"idle", "attick", "never"}
+  Emit = TRUE
+INVARIANTS C18_PingPerTick C18_FailureClosesOnce C18_NoPingAfterFailure C18_NoPingAfterEnd EmitInv
+PROPERTIES C18_StopsWithSession
+CHECK_DEADLOCK FALSE
+""" % (4 if q else 6, "{0, 1, 2, 3, 4}" if q else "{0, 1, 2, 3, 4, 5, 6}")
+        r = vlib.tlc_mc(ctx, "Keepalive", "MC_Keepalive.cfg", cfgtext=cfgtext)
+        scen = blines(r)
+        if not scen:
+            raise Infra("TLC emitted no behaviours")
+        ctx.exhaustive = True
+        ctx.notes["bounds"] = "keepalive goroutine: write failure at the k-th ping for k<=%d, session end after n<=%d pings while idle / with a tick already consumed / never, all tick-vs-quit races in the model; real client: intervals 5..40 ms (thorough 5..150 ms), SM on/off, write failure at the k-th keepalive for k<=4 with reads blocking" % ((4, 4) if q else (6, 6))
+        out, nev, _ = vlib.run_driver(ctx, "c18", scen=scen, timeout=1800)
+        ctx.verdicts += vlib.tlc_trace(ctx, "TraceKeepalive", "Trace_Keepalive.cfg", out, nev)
+    replay_or(ctx, "c18", "TraceKeepalive", "Trace_Keepalive.cfg", full)
+    ctx.assumptions += ["real time: upper bound exact (pings <= elapsed/interval + 1), lower bound tolerant (>= half); at most one keepalive after the session ended (its tick was already due)",
+                        "stale-keepalive interference during a reconnection (old session's goroutine vs the new connection) is not covered"]
+FAMILY_TRACE["c18"] = ("TraceKeepalive", "Trace_Keepalive.cfg")
